@@ -36,6 +36,9 @@ fn perturb(name: &str) -> bool {
     PERTURB.get().map(|p| p == name).unwrap_or(false)
 }
 
+static SYNC_REFRESHED: std::sync::atomic::AtomicU64 = std::sync::atomic::AtomicU64::new(0);
+static SYNC_KEPT_STALE: std::sync::atomic::AtomicU64 = std::sync::atomic::AtomicU64::new(0);
+
 const PLACEMENT_KINDS: &[&str] = &["deploy", "teardown", "migrate", "drain", "rebalance", "auto-rebalance", "reconcile", "failover"];
 
 type Routes = warp::filters::BoxedFilter<(warp::reply::Response,)>;
@@ -256,6 +259,25 @@ fn connector_body(name: &str, valid: bool, variant: u64) -> J {
 async fn health_tick(env: &Env, stale: Option<&str>) -> Result<J, String> {
     let mut coord = env.coord.write().await;
     coord.update_raft_role();
+    // observation only: a worker that really went silent arrives at the iteration with an old heartbeat;
+    // does it survive the loop's own sync? (counted, never judged: failure detection is C33's subject)
+    let mut refreshed_by_sync = J::Null;
+    if let Some(w) = stale {
+        let old = Instant::now().checked_sub(coord.heartbeat_timeout + Duration::from_millis(200)).ok_or("monotonic clock too small to back-date a heartbeat")?;
+        let wid = WorkerId(w.to_string());
+        let eligible = match coord.workers.get_mut(&wid) {
+            Some(n) if n.status == WorkerStatus::Ready => {
+                n.last_heartbeat = old;
+                true
+            }
+            _ => false,
+        };
+        if eligible {
+            coord.sync_from_raft();
+            let t = coord.heartbeat_timeout;
+            refreshed_by_sync = json!(coord.workers.get(&wid).map(|n| n.last_heartbeat.elapsed() < t));
+        }
+    }
     coord.sync_from_raft();
     if !coord.ha_role.is_writer() {
         return Err("single-node coordinator is not the Raft leader".into());
@@ -294,7 +316,7 @@ async fn health_tick(env: &Env, stale: Option<&str>) -> Result<J, String> {
     }
     let _ = coord.evaluate_scaling();
     coord.fire_scaling_webhook().await;
-    Ok(json!({"marked_unhealthy": failed.iter().map(|w| w.0.clone()).collect::<Vec<_>>(), "failover": failover_results, "pending_rebalance": pending, "reconciled": reconciled, "rebalance_migrations": rebalanced}))
+    Ok(json!({"silent_worker_heartbeat_refreshed_by_the_loops_sync": refreshed_by_sync, "marked_unhealthy": failed.iter().map(|w| w.0.clone()).collect::<Vec<_>>(), "failover": failover_results, "pending_rebalance": pending, "reconciled": reconciled, "rebalance_migrations": rebalanced}))
 }
 
 /// Executes one operation; returns (kind, note). Kind is a finite enumeration.
@@ -366,6 +388,11 @@ async fn exec(env: &Env, op: &Op, step_no: usize) -> Result<(String, J), String>
         }
         Op::TickWorkerStale { worker } => {
             let n = health_tick(env, Some(worker)).await?;
+            match n["silent_worker_heartbeat_refreshed_by_the_loops_sync"].as_bool() {
+                Some(true) => SYNC_REFRESHED.fetch_add(1, std::sync::atomic::Ordering::Relaxed),
+                Some(false) => SYNC_KEPT_STALE.fetch_add(1, std::sync::atomic::Ordering::Relaxed),
+                None => 0,
+            };
             let marked = n["marked_unhealthy"].as_array().map(|a| !a.is_empty()).unwrap_or(false);
             let moved = n["failover"].as_array().map(|a| a.iter().any(|f| f["migrations_ok"].as_u64().unwrap_or(0) > 0)).unwrap_or(false);
             // the marking itself is replicated by the loop (WorkerStatusChanged): name the iteration after
@@ -657,7 +684,7 @@ with loopback mock workers; after every step snapshot / sync_from_raft / snapsho
     }
     let threads = ncpu().min(8);
     let budget = Duration::from_secs(args.pick(14, 300));
-    let max_hist: u64 = args.pick(400, 20000);
+    let max_hist: u64 = args.pick(400, 60000);
     let parts = parallel(threads, args.seed, move |ti, mut rng| {
         let mut out = Partial::default();
         let rt = match tokio::runtime::Builder::new_current_thread().enable_all().build() {
@@ -720,5 +747,7 @@ with loopback mock workers; after every step snapshot / sync_from_raft / snapsho
     for p in parts {
         rep.merge(p);
     }
+    rep.set("observed_silent_ready_worker_heartbeat_refreshed_by_loop_sync", json!(SYNC_REFRESHED.load(std::sync::atomic::Ordering::Relaxed)));
+    rep.set("observed_silent_ready_worker_still_stale_after_loop_sync", json!(SYNC_KEPT_STALE.load(std::sync::atomic::Ordering::Relaxed)));
     std::process::exit(rep.finish());
 }
